@@ -64,6 +64,9 @@ pub struct RunCfg {
     /// only, group name tied to the filter), the rest are outsiders.
     pub members: usize,
     pub will_once: bool,
+    /// Clients 0..good_clients obey the protocol; the rest are rogues (if `rogue`).
+    pub good_clients: usize,
+    pub shadow_events: bool,
 }
 
 const TOPICS: &[&str] = &["a/b", "a/c", "a/b/c", "d", "x/y/z", "$SYS/x", "\u{e9}t\u{e9}/b", "a/\u{4e16}"];
@@ -156,6 +159,8 @@ impl RunCfg {
             immediate_notify: ch.range(1, 4),
             members: 0,
             will_once: false,
+            good_clients: n_clients,
+            shadow_events: false,
         };
         if cfg.qos_mix.iter().all(|w| *w == 0) {
             cfg.qos_mix[1] = 1;
@@ -232,7 +237,23 @@ impl RunCfg {
                 cfg.retained = ch.coin(1, 2);
                 cfg.empty_payload = ch.coin(1, 2);
                 cfg.wills = ch.coin(1, 2);
-                cfg.max_connections = ch.range(3, 10) as usize;
+                cfg.n_clients = ch.range(2, 6) as usize;
+                cfg.good_clients = ch.range(1, 2) as usize;
+                cfg.shadow_events = ch.coin(1, 4);
+                cfg.max_connections = cfg.n_clients + ch.pick(3) as usize;
+                cfg.w_drop = ch.range(0, 3);
+            }
+            P::C14 => {
+                cfg.rogue = true;
+                cfg.n_clients = ch.range(3, 6) as usize;
+                cfg.good_clients = 2;
+                cfg.shadow_events = ch.coin(1, 6);
+                cfg.stale_events = ch.coin(2, 3);
+                cfg.max_connections = cfg.n_clients + 2;
+                cfg.w_drop = ch.range(1, 3);
+                cfg.w_disc_pkt = ch.range(0, 2);
+                cfg.w_unsub = ch.pick(2);
+                cfg.resub = false;
             }
             _ => {}
         }
@@ -269,6 +290,10 @@ struct Client {
     connects: u32,
     has_will: bool,
     subscribed: Vec<String>,
+    /// Deliberately violates the protocol (C03 / C14 only).
+    rogue: bool,
+    /// Never reads what the broker sends (slow / stalled consumer).
+    stalled: bool,
 }
 
 #[derive(PartialEq, Eq, Debug, Clone, Copy)]
@@ -306,6 +331,13 @@ struct Link {
     /// still pushed into the (now unread) outgoing buffer.
     dead_rx: Option<LinkRx>,
     qos_forwards: u32,
+    stale_budget: u32,
+    /// A packet that certainly makes the broker close this connection has
+    /// been pushed: the client sends nothing after it (what a broker does
+    /// with packets that follow a protocol violation in the same batch is
+    /// not covered by any statement).
+    poisoned: bool,
+    qos2_unreleased: u32,
 }
 
 pub struct World {
@@ -329,6 +361,8 @@ pub struct World {
     forwards_total: u32,
     link_wills: Vec<(usize, Option<Will>)>,
     abandoned: Vec<usize>,
+    meter_rx: Vec<flume::Receiver<Vec<rumqttd::Meter>>>,
+    alert_rx: Vec<flume::Receiver<Vec<rumqttd::Alert>>>,
 }
 
 fn qos_of(q: u8) -> pr::QoS {
@@ -431,7 +465,88 @@ fn to_packet(p: &SimPkt) -> pr::Packet {
             },
             None,
         ),
-        SimPkt::Ignored(_) => pr::Packet::PingResp(pr::PingResp),
+        SimPkt::Ignored(kind) => match *kind {
+            "connack" => pr::Packet::ConnAck(
+                pr::ConnAck {
+                    session_present: false,
+                    code: pr::ConnectReturnCode::Success,
+                },
+                None,
+            ),
+            "suback" => pr::Packet::SubAck(
+                pr::SubAck {
+                    pkid: 1,
+                    return_codes: vec![pr::SubscribeReasonCode::QoS0],
+                },
+                None,
+            ),
+            "unsuback" => pr::Packet::UnsubAck(
+                pr::UnsubAck {
+                    pkid: 1,
+                    reasons: vec![],
+                },
+                None,
+            ),
+            "connect" => pr::Packet::Connect(
+                pr::Connect {
+                    keep_alive: 10,
+                    client_id: "again".to_string(),
+                    clean_session: true,
+                },
+                None,
+                None,
+                None,
+                None,
+            ),
+            _ => pr::Packet::PingResp(pr::PingResp),
+        },
+        SimPkt::BadAck(kind, p) => match kind {
+            0 => pr::Packet::PubAck(
+                pr::PubAck {
+                    pkid: *p,
+                    reason: pr::PubAckReason::Success,
+                },
+                None,
+            ),
+            1 => pr::Packet::PubRec(
+                pr::PubRec {
+                    pkid: *p,
+                    reason: pr::PubRecReason::Success,
+                },
+                None,
+            ),
+            _ => pr::Packet::PubComp(
+                pr::PubComp {
+                    pkid: *p,
+                    reason: pr::PubCompReason::Success,
+                },
+                None,
+            ),
+        },
+        SimPkt::PublishV5 {
+            topic,
+            payload,
+            qos,
+            pkid,
+            retain,
+            alias,
+            sub_ids,
+        } => pr::Packet::Publish(
+            pr::Publish::verif_new(
+                Bytes::from(topic.clone()),
+                Bytes::from(payload.clone()),
+                qos_of(*qos),
+                *pkid,
+                *retain,
+                false,
+            ),
+            Some(pr::PublishProperties {
+                topic_alias: *alias,
+                subscription_identifiers: if *sub_ids { vec![7] } else { vec![] },
+                user_properties: vec![("k".to_string(), "v".to_string())],
+                ..Default::default()
+            }),
+        ),
     }
 }
 
@@ -453,6 +568,11 @@ enum Act {
     DiscPkt(usize),
     Drop(usize),
     Will(usize),
+    Rogue(usize),
+    Shadow(usize),
+    Tick,
+    StaleNotify(usize),
+    StaleReady(usize),
 }
 
 impl World {
@@ -574,6 +694,9 @@ impl World {
             out_rel: VecDeque::new(),
             dead_rx: None,
             qos_forwards: 0,
+            stale_budget: 3,
+            poisoned: false,
+            qos2_unreleased: 0,
         });
         self.evq.push_back((l, hook::EV_CONNECT));
         if let Some(old) = self.clients[c].link {
@@ -675,6 +798,12 @@ impl World {
 
     fn unexpected_close(&mut self, l: usize, how: &str) {
         let c = self.links[l].client;
+        if self.clients[c].rogue {
+            // the model predicts every close of a rogue; a mismatch means the
+            // model and the broker disagree about that rogue, nothing more
+            self.divergence(format!("rogue client c{c} (link {l}) closed by the broker ({how}) but alive in the model"));
+            return;
+        }
         let msg = format!(
             "connection of well-behaved client c{c} (link {l}) was closed by the broker ({how}) although it did nothing that permits that"
         );
@@ -690,6 +819,11 @@ impl World {
         let link = &mut self.links[l];
         if link.state != LState::Up {
             return;
+        }
+        match &pkt {
+            SimPkt::Publish { qos: 2, .. } => link.qos2_unreleased += 1,
+            SimPkt::PubRel(_) if link.qos2_unreleased > 0 => link.qos2_unreleased -= 1,
+            _ => {}
         }
         let Some(tx) = link.tx.as_mut() else { return };
         tx.buffer().push_back(to_packet(&pkt));
@@ -841,6 +975,7 @@ impl World {
             String::from_utf8_lossy(&f.publish.payload),
             f.publish.retain
         );
+        let rogue = self.clients[c].rogue;
         // C09: window invariants, from the client's point of view
         if qos > 0 {
             let link = &mut self.links[l];
@@ -848,7 +983,7 @@ impl World {
             let dup_id = link.awaiting.iter().any(|(p, _)| *p == pkid);
             link.awaiting.push_back((pkid, None));
             let n = link.awaiting.len();
-            if self.prop == P::C09 || self.prop == P::C14 {
+            if (self.prop == P::C09 || self.prop == P::C14) && !rogue {
                 if pkid == 0 {
                     self.viol("window_pkid_zero", format!("QoS{qos} forward to c{c} carries packet id 0"));
                 } else if dup_id {
@@ -872,7 +1007,7 @@ impl World {
                 Owed::PubRec(pkid)
             });
         }
-        if self.done() {
+        if self.done() || rogue {
             return;
         }
         self.attribute(l, &topic, &f.publish.payload, qos, f.publish.retain, &f);
@@ -1350,7 +1485,7 @@ impl World {
             }
             _ => {}
         }
-        if !matches!(self.prop, P::C06 | P::C14) {
+        if !matches!(self.prop, P::C06 | P::C14) || self.clients[c].rogue {
             return;
         }
         // C06 ledger
@@ -1472,12 +1607,35 @@ impl World {
                 hook::EV_DISCONNECT => {
                     if let Some(conn) = self.spec.occupant(id) {
                         let stale = self.spec.conns[conn].link != l;
+                        tr!(self.rep, "router: disconnect slot {id} (link {l}, stale={stale})");
+                        self.spec.close(conn, if stale { "stale_disconnect_event" } else { "link_disconnect_event" });
                         if stale {
                             self.rep.probe("stale_disconnect_on_reused_slot");
                             self.rep.fault("stale_disconnect");
+                            let victim = self.links[self.spec.conns[conn].link].client;
+                            let from = self.links[l].client;
+                            if matches!(self.prop, P::C03 | P::C14) {
+                                self.viol(
+                                    "stale_disconnect_closes_later_connection",
+                                    format!("the Disconnect event of the finished link {l} (client c{from}, connection id {id}) was applied to the connection client c{victim} established later in the same slot"),
+                                );
+                            }
                         }
-                        tr!(self.rep, "router: disconnect slot {id} (link {l}, stale={stale})");
-                        self.spec.close(conn, if stale { "stale_disconnect_event" } else { "link_disconnect_event" });
+                    }
+                }
+                hook::EV_SHADOW => {
+                    if let Some(conn) = self.spec.occupant(id) {
+                        if self.spec.conns[conn].link != l {
+                            self.rep.probe("stale_shadow_on_reused_slot");
+                            let victim = self.links[self.spec.conns[conn].link].client;
+                            let from = self.links[l].client;
+                            if matches!(self.prop, P::C03 | P::C14) {
+                                self.viol(
+                                    "stale_shadow_reply_to_later_connection",
+                                    format!("the Shadow request of the finished link {l} (client c{from}, connection id {id}) is answered into the buffer of the connection client c{victim} established later in the same slot"),
+                                );
+                            }
+                        }
                     }
                 }
                 hook::EV_PUBLISH_WILL => {
@@ -1581,7 +1739,7 @@ impl World {
                 LState::Ended => {}
                 LState::Up => {
                     let (signals, gone) = link.rx.as_ref().map(|r| r.verif_signal()).unwrap_or((0, false));
-                    if signals > 0 || gone {
+                    if (signals > 0 || gone) && !cl.stalled {
                         v.push((Act::Drain(l), 6));
                     }
                     if link.unnotified > 0 && can_send {
@@ -1590,7 +1748,7 @@ impl World {
                     if link.ready_owed > 0 && can_send {
                         v.push((Act::Ready(l), 4));
                     }
-                    let room = link.shadow.len() < 200;
+                    let room = link.shadow.len() < 200 && !link.poisoned;
                     if room {
                         if !link.owed_ack.is_empty() {
                             let w = match cl.pace {
@@ -1637,6 +1795,35 @@ impl World {
                             }
                         }
                     }
+                }
+            }
+        }
+        if self.cfg.rogue && !self.quiescing && can_send {
+            v.push((Act::Tick, 1));
+            for (l, link) in self.links.iter().enumerate() {
+                let cl = &self.clients[link.client];
+                if !cl.rogue {
+                    continue;
+                }
+                match link.state {
+                    LState::Up if link.shadow.len() < 200 => {
+                        if cl.link == Some(l) && !link.poisoned {
+                            v.push((Act::Rogue(l), 3));
+                        } else if self.cfg.stale_events {
+                            // a link its client abandoned, still unaware that the
+                            // router closed it: whatever it emits now is stale
+                            if link.unnotified > 0 {
+                                v.push((Act::Notify(l), 2));
+                            }
+                            if link.ready_owed > 0 {
+                                v.push((Act::Ready(l), 2));
+                            }
+                        }
+                        if self.cfg.shadow_events {
+                            v.push((Act::Shadow(l), 1));
+                        }
+                    }
+                    _ => {}
                 }
             }
         }
@@ -1877,6 +2064,58 @@ impl World {
                 self.links[l].state = LState::Up;
                 self.abandoned.push(l);
             }
+            Act::Rogue(l) => self.rogue_step(l),
+            Act::Shadow(l) => {
+                let f = self.cfg.filters[self.ch.pick(self.cfg.filters.len() as u32) as usize].to_string();
+                if let Some(tx) = self.links[l].tx.as_mut() {
+                    if tx.shadow(f).is_ok() {
+                        self.evq.push_back((l, hook::EV_SHADOW));
+                        self.rep.probe("shadow_event");
+                        tr!(self.rep, "c{} link={l} shadow event", self.links[l].client);
+                    }
+                }
+            }
+            Act::Tick => {
+                let ev = match self.ch.pick(4) {
+                    0 => {
+                        let (tx, rx) = flume::bounded(2);
+                        self.meter_rx.push(rx);
+                        (Event::NewMeter(tx), hook::EV_NEW_METER)
+                    }
+                    1 => {
+                        let (tx, rx) = flume::bounded(2);
+                        self.alert_rx.push(rx);
+                        (Event::NewAlert(tx), hook::EV_NEW_ALERT)
+                    }
+                    2 => (Event::SendMeters, hook::EV_SEND_METERS),
+                    _ => (Event::SendAlerts, hook::EV_SEND_ALERTS),
+                };
+                if self.router_tx.try_send((0, ev.0)).is_ok() {
+                    self.evq.push_back((usize::MAX, ev.1));
+                    self.rep.probe("tick_event");
+                    tr!(self.rep, "tick event kind={}", ev.1);
+                }
+            }
+            Act::StaleNotify(l) => {
+                self.links[l].stale_budget -= 1;
+                if let Some(tx) = self.links[l].tx.as_mut() {
+                    if tx.verif_notify().is_ok() {
+                        self.evq.push_back((l, hook::EV_DEVICE_DATA));
+                        self.rep.fault("stale_device_data");
+                        tr!(self.rep, "c{} link={l} stale DeviceData", self.links[l].client);
+                    }
+                }
+            }
+            Act::StaleReady(l) => {
+                self.links[l].stale_budget -= 1;
+                self.links[l].ready_owed -= 1;
+                let id = self.links[l].conn_id.unwrap_or(0);
+                if self.router_tx.try_send((id, Event::Ready)).is_ok() {
+                    self.evq.push_back((l, hook::EV_READY));
+                    self.rep.fault("stale_ready");
+                    tr!(self.rep, "c{} link={l} stale Ready", self.links[l].client);
+                }
+            }
             Act::Drop(l) => {
                 self.rep.fault("link_drop");
                 tr!(self.rep, "c{} link={l} network drop", self.links[l].client);
@@ -1885,11 +2124,122 @@ impl World {
         }
     }
 
+    /// One deliberately wrong (but decodable) action of a rogue client. Only
+    /// actions whose effect on the connection is certain are used, so that
+    /// the reference model knows whether the broker must close it.
+    fn rogue_step(&mut self, l: usize) {
+        let c = self.links[l].client;
+        self.rep.fault("rogue_packet");
+        let pkt = match self.ch.pick(9) {
+            0 => {
+                // ack with an id the broker never uses
+                let kind = self.ch.pick(3) as u8;
+                let pkid = *self.ch.choose(&[0u16, 101, 65535]);
+                SimPkt::BadAck(kind, pkid)
+            }
+            1 => {
+                // out-of-order ack: the second unacknowledged forward first
+                if self.links[l].awaiting.len() >= 2 {
+                    let p = self.links[l].awaiting[1].0;
+                    SimPkt::BadAck(0, p)
+                } else {
+                    SimPkt::BadAck(2, 65535)
+                }
+            }
+            2 => SimPkt::PubRel(*self.ch.choose(&[0u16, 1, 9999])),
+            3 => SimPkt::Subscribe {
+                pkid: 77,
+                filters: vec![("$SYS/#".to_string(), self.ch.pick(3) as u8)],
+                sub_id: None,
+            },
+            4 => SimPkt::Subscribe {
+                pkid: 78,
+                filters: vec![("a/b".to_string(), 0)],
+                sub_id: Some(0),
+            },
+            5 => {
+                let qos = self.ch.pick(2) as u8;
+                let pkid = if qos > 0 { self.alloc_pkid(c) } else { 0 };
+                SimPkt::Publish {
+                    topic: vec![0xff, 0xfe, b'/', b'x'],
+                    payload: b"bad".to_vec(),
+                    qos,
+                    pkid,
+                    retain: false,
+                }
+            }
+            6 => SimPkt::Ignored(*self.ch.choose(&["connack", "suback", "unsuback", "connect", "pingresp"])),
+            7 => {
+                // MQTT 5 publish with alias games (QoS 0/1 only)
+                let qos = self.ch.pick(2) as u8;
+                let pkid = if qos > 0 { self.alloc_pkid(c) } else { 0 };
+                let topic = self.cfg.topics[self.ch.pick(self.cfg.topics.len() as u32) as usize];
+                let (t, alias) = match self.ch.pick(5) {
+                    0 => (topic.as_bytes().to_vec(), Some(0u16)),
+                    1 => (topic.as_bytes().to_vec(), Some(5000)),
+                    2 => (Vec::new(), Some(self.ch.range(1, 3) as u16)),
+                    3 => (topic.as_bytes().to_vec(), Some(self.ch.range(1, 3) as u16)),
+                    _ => (topic.as_bytes().to_vec(), None),
+                };
+                let payload = format!("m{}", self.next_seq).into_bytes();
+                self.next_seq += 1;
+                SimPkt::PublishV5 {
+                    topic: t,
+                    payload,
+                    qos,
+                    pkid,
+                    retain: false,
+                    alias,
+                    sub_ids: self.ch.coin(1, 6),
+                }
+            }
+            _ => {
+                // QoS 2 publish that is never released, or released twice
+                let pkid = self.alloc_pkid(c);
+                let topic = self.cfg.topics[self.ch.pick(self.cfg.topics.len() as u32) as usize];
+                let payload = format!("m{}", self.next_seq).into_bytes();
+                self.next_seq += 1;
+                SimPkt::Publish {
+                    topic: topic.as_bytes().to_vec(),
+                    payload,
+                    qos: 2,
+                    pkid,
+                    retain: false,
+                }
+            }
+        };
+        let closes = match &pkt {
+            SimPkt::BadAck(..) => true,
+            SimPkt::PubRel(_) => self.links[l].qos2_unreleased == 0,
+            SimPkt::Subscribe { filters, sub_id, .. } => {
+                *sub_id == Some(0) || filters.iter().any(|(f, _)| f.starts_with('$') && !f.starts_with("$share"))
+            }
+            SimPkt::Publish { topic, .. } => std::str::from_utf8(topic).is_err(),
+            SimPkt::PublishV5 { topic, alias, sub_ids, .. } => {
+                *sub_ids
+                    || matches!(alias, Some(a) if *a == 0 || *a > 4096)
+                    || (topic.is_empty())
+            }
+            _ => false,
+        };
+        if closes {
+            // conservative: also poison when the close is only possible (empty
+            // topic with an alias that may or may not be known)
+            self.links[l].poisoned = true;
+        }
+        self.push(l, pkt);
+    }
+
     /// Push without the coin for an immediate notify (used inside batches).
     fn push_quiet(&mut self, l: usize, pkt: SimPkt) {
         let link = &mut self.links[l];
         if link.state != LState::Up {
             return;
+        }
+        match &pkt {
+            SimPkt::Publish { qos: 2, .. } => link.qos2_unreleased += 1,
+            SimPkt::PubRel(_) if link.qos2_unreleased > 0 => link.qos2_unreleased -= 1,
+            _ => {}
         }
         let Some(tx) = link.tx.as_mut() else { return };
         tx.buffer().push_back(to_packet(&pkt));
@@ -2272,6 +2622,9 @@ impl World {
                     continue;
                 }
                 let c = self.links[l].client;
+                if self.clients[c].rogue || self.clients[c].stalled {
+                    continue;
+                }
                 if let Some(e) = k.exp_acks.front() {
                     let class = format!("reply_missing_at_quiescence:{}", kind(e));
                     let n = k.exp_acks.len();
@@ -2317,7 +2670,7 @@ impl World {
             if self.clients[c].link != Some(l) {
                 continue;
             }
-            if self.spec.conns[conn].unchecked {
+            if self.spec.conns[conn].unchecked || self.clients[c].rogue || self.clients[c].stalled {
                 continue;
             }
             // complete under SOME possible assignment; otherwise report the
@@ -2547,6 +2900,96 @@ impl World {
     }
 }
 
+/// C03 (3): after everything, a fresh client can connect, subscribe, publish
+/// to itself and receive its message.
+fn probe_client(router: &mut Router, world: &Rc<RefCell<World>>) {
+    let c;
+    {
+        let mut w = world.borrow_mut();
+        if w.done() {
+            return;
+        }
+        c = w.clients.len();
+        w.clients.push(Client {
+            id: "probe".to_string(),
+            clean: true,
+            link: None,
+            next_pkid: 0,
+            pace: Pace::Eager,
+            out_unacked: 0,
+            connects: 0,
+            has_will: false,
+            subscribed: Vec::new(),
+            rogue: false,
+            stalled: false,
+        });
+        tr!(w.rep, "-- probe client");
+        // no random client or link actions while the probe runs
+        w.quiescing = true;
+        w.yield_budget = 0;
+        w.connect(c);
+    }
+    if !run_to_idle(router, world) {
+        return;
+    }
+    let l;
+    {
+        let mut w = world.borrow_mut();
+        let Some(link) = w.clients[c].link else { return };
+        l = link;
+        w.finish(l);
+        if w.done() {
+            return;
+        }
+        if w.links[l].state != LState::Up {
+            if w.links[l].refused_expected == Some("max_connections") {
+                w.rep.probe("probe_refused_for_capacity");
+                return;
+            }
+            w.viol(
+                "probe_client_not_accepted",
+                "after the run a fresh client could not register with the broker".to_string(),
+            );
+            return;
+        }
+        w.push_quiet(
+            l,
+            SimPkt::Subscribe {
+                pkid: 1,
+                filters: vec![("probe/t".to_string(), 0)],
+                sub_id: None,
+            },
+        );
+        w.push_quiet(
+            l,
+            SimPkt::Publish {
+                topic: b"probe/t".to_vec(),
+                payload: b"probe".to_vec(),
+                qos: 0,
+                pkid: 0,
+                retain: false,
+            },
+        );
+        w.notify(l);
+    }
+    if !run_to_idle(router, world) {
+        return;
+    }
+    let mut w = world.borrow_mut();
+    w.drain(l);
+    if w.done() {
+        return;
+    }
+    if w.links[l].forwards_seen == 0 {
+        w.viol(
+            "probe_client_not_served",
+            "after the run a fresh client subscribed and published to itself but received nothing".to_string(),
+        );
+    } else {
+        w.rep.probe("probe_client_served");
+    }
+}
+
 pub fn run(prop: P, _tier: Tier, ch: &mut Choices, rep: &mut RunReport) -> Outcome {
     let cfg = RunCfg::draw(prop, ch);
     let config = RouterConfig {
@@ -2588,6 +3031,8 @@ pub fn run(prop: P, _tier: Tier, ch: &mut Choices, rep: &mut RunReport) -> Outco
         forwards_total: 0,
         link_wills: Vec::new(),
         abandoned: Vec::new(),
+        meter_rx: Vec::new(),
+        alert_rx: Vec::new(),
     };
     world.rep.config = format!("{cfg:?}");
     tr!(world.rep, "cfg {:?}", cfg);
@@ -2601,6 +3046,8 @@ pub fn run(prop: P, _tier: Tier, ch: &mut Choices, rep: &mut RunReport) -> Outco
         };
         let clean = !(cfg.persistent && world.ch.coin(1, 2));
         let has_will = cfg.wills && world.ch.coin(1, 2);
+        let rogue = cfg.rogue && c >= cfg.good_clients;
+        let stalled = rogue && world.ch.coin(1, 4);
         world.clients.push(Client {
             id: format!("client{c}"),
             clean,
@@ -2611,6 +3058,8 @@ pub fn run(prop: P, _tier: Tier, ch: &mut Choices, rep: &mut RunReport) -> Outco
             connects: 0,
             has_will,
             subscribed: Vec::new(),
+            rogue,
+            stalled,
         });
     }
     let world = Rc::new(RefCell::new(world));
@@ -2705,6 +3154,9 @@ pub fn run(prop: P, _tier: Tier, ch: &mut Choices, rep: &mut RunReport) -> Outco
             w.check_at_quiescence(&snap, true);
             let fp = fingerprint(&router);
             w.rep.state(fp);
+        }
+        if prop == P::C03 {
+            probe_client(&mut router, &world);
         }
     }
 
